@@ -121,7 +121,7 @@ fn scenario_drop_orders(tape: &Tape, out: &mut Out, trace: bool) -> R {
     }
     let end_kind = c[5] % 3; // commit / abort / drop
     // "every injected backend failure": in a third of the cases close() itself returns an error
-    let close_fails = c[7] % 3 == 0;
+    let close_fails = c[7] % 3 == 2; // zero bytes decode to the simplest choice: close() succeeds
     if close_fails {
         backend.lock().fail_close = true;
         out.classes.push("close() returns an error");
@@ -254,6 +254,10 @@ fn scenario_failing_open(tape: &Tape, out: &mut Out, trace: bool, with_fault: bo
     let mut img = image.clone();
     let mut abort_repair = false;
     let mut fault: Option<(u64, FaultMode)> = None;
+    // reads past the end are judged when the file still holds a complete header and the geometry
+    // fields are untouched: every page address must then come from a layout validated against
+    // the file length
+    let mut judge_reads = false;
     let what: &'static str;
     if with_fault {
         let k = u64::from(c[7]) % 48;
@@ -280,8 +284,16 @@ fn scenario_failing_open(tape: &Tape, out: &mut Out, trace: bool, with_fault: bo
                 "file shorter than the header"
             }
             4 => {
-                img.truncate(image.len() / 2 / page * page);
-                "file truncated to half"
+                // any page boundary from 2 pages up to one page short (zero bytes: half)
+                let pages = image.len() / page;
+                let sel = u16::from_le_bytes([c[7], c[8]]) as usize;
+                let keep = if sel == 0 { (pages / 2).max(2) } else { 2 + sel % (pages.saturating_sub(2)).max(1) };
+                img.truncate(keep.min(pages) * page);
+                // a cleanly closed file is refused before anything but the header is read; a
+                // recovery-required one is repaired by walking its trees, which relies on the
+                // backend answering a read past the end with an error (not judged)
+                judge_reads = !unclean;
+                "file truncated on a page boundary"
             }
             5 => {
                 abort_repair = true;
@@ -359,10 +371,13 @@ fn scenario_failing_open(tape: &Tape, out: &mut Out, trace: bool, with_fault: bo
         // (tests/integration_tests.rs read_past_eof_errors). Such reads are counted, not judged;
         // writes beyond the length and calls after close() are still violations.
         let g = b.lock();
-        let bad: Vec<&String> = g.oob.iter().filter(|m| !m.starts_with("read ")).chain(g.calls_after_close.iter()).collect();
+        let bad: Vec<&String> = g.oob.iter().filter(|m| judge_reads || !m.starts_with("read ")).chain(g.calls_after_close.iter()).collect();
         sensure!(bad.is_empty(), "backend-contract", "{what}: backend contract violated: {:?}", &bad[..bad.len().min(3)]);
         if !g.oob.is_empty() {
             out.classes.push("altered file: read past EOF answered with an error (counted, not judged)");
+        }
+        if judge_reads {
+            out.classes.push("file truncated on a page boundary (reads past the end judged)");
         }
     }
     out.classes.push(if with_fault { "fault-in-open scenario" } else { "altered-file-open scenario" });
@@ -385,7 +400,7 @@ fn scenario_read_only(tape: &Tape, out: &mut Out, trace: bool) -> R {
     // "a read-only database never writes, resizes or syncs" also when the file length does not
     // match the stored layout (e.g. a copy tool that preallocates): refuse or serve, never repair
     let mut image = image;
-    let resized = !unclean && tape.cfg[6] % 3 == 0;
+    let resized = !unclean && tape.cfg[6] % 3 == 2;
     if resized {
         let page = m.cfg.page_size;
         let extra = match tape.cfg[7] % 4 {
